@@ -153,7 +153,7 @@ func (e *Env) Predict(sel map[string]bool, cfg BuildCfg) (*Pred, error) {
 				checkFails = true
 			}
 		}
-		willFail := t.FailExit != 0 || (t.FailIf != "" && e.markerOn(t.FailIf)) || t.Omit != "" ||
+		willFail := t.FailExit != 0 || (t.FailIf != "" && e.markerOn(t.FailIf)) || (t.Omit != "" && t.OmitIf == "") ||
 			(t.OmitIf != "" && e.markerOn(t.OmitIf) && len(t.AllOuts()) > 0) ||
 			(t.SleepIf != "" && e.markerOn(t.SleepIf) && t.Timeout != "")
 		if !willFail {
